@@ -233,7 +233,7 @@ func RegisterSV(ld *Loaded) {
 		p.take(p.ts.BvRel("bvsle", k, p.ts.BV(uint64(maxPolls), 64)))
 		id := len(p.ctxs)
 		p.ctxs = append(p.ctxs, &ctxState{k: k})
-		cell := value(structure{id, 0, int64(0)})
+		cell := value(structure{id, 0, p.mkInt(k, types.Int64), false})
 		return &cell
 	})
 	externals[svName(ld, "SymCtx", "Done")] = func(fr *frame, args []value) value {
@@ -243,10 +243,18 @@ func RegisterSV(ld *Loaded) {
 		j := cs.polls
 		cs.polls++
 		st[1] = cs.polls
+		if c, ok := st[3].(bool); ok && c {
+			return p.closedChan()
+		}
 		if p.decide(p.ts.BvRel("bvsle", cs.k, p.ts.BV(uint64(j), 64))) {
 			return p.closedChan()
 		}
 		return p.openChan()
+	}
+	externals[svName(ld, "SymCtx", "Cancel")] = func(fr *frame, args []value) value {
+		st := (*args[0].(*value)).(structure)
+		st[3] = true
+		return nil
 	}
 	externals[svName(ld, "SymCtx", "Err")] = func(fr *frame, args []value) value {
 		p := fr.i.path
